@@ -54,8 +54,8 @@ Definition ex_ec : ec := [ mkT 1 10 0 0 91 81 91; mkT 2 11 1 30 92 82 92; mkT 3 
 Definition ex_cfg := mkCfg 0 20 10 2 1 30 10.
 Definition ex_cs := mkCerts (fun i => if i =? 0 then Some (1, 1) else None) (fun i => if i =? 0 then Some 77 else if i =? 1 then Some 78 else None) true.
 Example C15_nonvacuous :
-  proposal ex_cfg ex_ec 4 ex_cs 1000 1 = Some (77, [(1, 10, 91); (2, 11, 92); (3, 13, 93)]) /\
-  proposal ex_cfg ex_ec 5 ex_cs 1000 1 = Some (77, [(1, 10, 91); (2, 11, 92)]) /\
-  proposal ex_cfg ex_ec 7 ex_cs 1000 1 = Some (77, [(1, 10, 91)]) /\
+  proposal ex_cfg ex_ec 4 ex_cs 1000 1 = Some (91, [(1, 10, 91); (2, 11, 92); (3, 13, 93)]) /\
+  proposal ex_cfg ex_ec 5 ex_cs 1000 1 = Some (91, [(1, 10, 91); (2, 11, 92)]) /\
+  proposal ex_cfg ex_ec 7 ex_cs 1000 1 = Some (91, [(1, 10, 91)]) /\
   collect ex_ec (mkT 1 10 0 0 91 81 91) (mkT 7 12 8 0 97 87 97) = CCollapse.
 Proof. vm_compute. repeat split. Qed.
